@@ -94,7 +94,7 @@ var modeCounter int64
 var allCuts bool
 
 // readerModes: the plain reader, the one-byte reader and (for the files whose content hash is 0 mod 32 - a
-// fixed, schedule-independent 1/32 of the cases; in the thorough tier all small files and a quarter of the larger
+// fixed, schedule-independent 1/32 of the cases; in the thorough tier all small files and a sixteenth of the larger
 // ones) one reader per cut offset.
 func readerModes(r *ev.Run, data []byte) []func() (io.Reader, string) {
 	out := []func() (io.Reader, string){
@@ -106,9 +106,10 @@ func readerModes(r *ev.Run, data []byte) []func() (io.Reader, string) {
 	atomic.AddInt64(&modeCounter, 1)
 	hh := fnv.New32a()
 	hh.Write(data)
-	// thorough: every cut offset for every file of at most 200 bytes and for a fixed quarter (by content hash) of
-	// the larger ones - all offsets of all two million three-face files would be 10^9 decodes
-	if (allCuts && (len(data) <= 200 || hh.Sum32()%4 == 0)) || hh.Sum32()%32 == 0 {
+	// thorough: every cut offset for every file of at most 200 bytes and for a fixed sixteenth (by content hash) of
+	// the larger ones - all offsets of all two million three-face files would be 10^9 decodes, a quarter of them ran
+	// for more than four hours
+	if (allCuts && (len(data) <= 200 || hh.Sum32()%16 == 0)) || hh.Sum32()%32 == 0 {
 		for k := 1; k < len(data); k++ {
 			k := k
 			out = append(out, func() (io.Reader, string) {
